@@ -61,6 +61,18 @@ def templates(fx):
                     paths = [p for p in paths if not _assumes_empty_children(p["eff"])]
                 from ..template import normalise_split_loops
                 paths = [dict(p, eff=normalise_split_loops(p["eff"])) for p in paths]
+                # a path that hands back the Result of a call as it is (`return child.compile_into(..)`) succeeds when that
+                # call succeeds and fails when it fails: both outcomes are paths of the arm like any other
+                settled = []
+                for p in paths:
+                    o = p["out"]
+                    if o[0] == "val" and isinstance(o[1], tuple) and o[1][:1] == ("fall",) and o[1][2] == "result":
+                        at = (p["eff"][-1].get("at") if p["eff"] else "") or ""
+                        settled.append(dict(p, eff=list(p["eff"]) + [{"k": "assume_ok", "args": (o[1],), "res": None, "at": at}], out=("val", ("ok", ("payload", o[1])))))
+                        settled.append(dict(p, eff=list(p["eff"]) + [{"k": "assume_fail", "args": (o[1],), "res": None, "at": at}], out=("val", ("err", ("errof", o[1])))))
+                    else:
+                        settled.append(p)
+                paths = settled
                 if hasattr(ex, "loops"):
                     from .c02 import all_loops as _al
                     for p in paths:
@@ -163,6 +175,12 @@ def run(ck, fx, cg, tier):
     ck.assumptions = sorted(side_conditions) + [
         "Function/Top net 0 for either keep (definitions): harmless because FunctionDefinition occurs only as a Top child or object member (grammar)",
     ]
+    # the side conditions on the parser's output that the depth argument rests on (a definition nets 0 operands and may
+    # therefore only stand where no value is expected; block / top-level lists are non-empty) are grammar facts: C07's
+    # R7.shape obligations, evaluated here as one presupposition
+    from . import shared as _shp
+    _shp.presuppose(ck, fx, cg, "C07", lambda o: o["rule"] == "R7.shape", "R2.depth",
+                    "parser output satisfies the side conditions (definitions only at top level / as members; non-empty lists)", floor=4)
     _labels_counter(ck, fx)
     _who_appends(ck, fx)
     _root_buffer(ck, fx)
